@@ -219,7 +219,9 @@ func (e *engineUnderTest) exec(a C12Action, prev64 *Paths, prevD *c2.PathsD) out
 			return outcome{ok: ok, closed: cl, open: op}
 		case "execTree":
 			tr := c2.NewPolyTree64()
-			tr.AddChild(junkPolygons()[0]) // junk child that must be replaced
+			if a.Sol != "fresh" { // (the reference execution of a fresh engine gets a clean tree)
+				tr.AddChild(junkPolygons()[0]) // junk child that must be replaced
+			}
 			op := junkD()
 			ok := e.e64.ExecutePolyTree64(a.CT, a.FR, tr, &op)
 			return outcome{ok: ok, closed: treePolygons(tr.PolyPathBase), open: pathsFromD(op, 1), tree: treeFingerprint(tr.PolyPathBase)}
@@ -238,7 +240,9 @@ func (e *engineUnderTest) exec(a C12Action, prev64 *Paths, prevD *c2.PathsD) out
 			return outcome{ok: ok, closed: pathsFromD(cl, div), open: pathsFromD(op, div)}
 		case "execTree":
 			tr := c2.NewPolyTreeD()
-			tr.AddChild(junkPolygons()[0])
+			if a.Sol != "fresh" {
+				tr.AddChild(junkPolygons()[0])
+			}
 			op := junkD()
 			ok := e.eD.ExecutePolyTreeD(a.CT, a.FR, tr, &op)
 			return outcome{ok: ok, closed: treePolygons(tr.PolyPathBase), open: pathsFromD(op, div), tree: treeFingerprint(tr.PolyPathBase), extra: fmt.Sprintf("scale=%v", tr.Scale())}
